@@ -24,8 +24,7 @@ Record bs_state := mkBS {
   bs_blocks : list block;         (* flushed blocks, in flush order *)
   bs_num    : Z;                  (* num_blocks *)
   bs_mq     : list nat;           (* indexes_mutation[d:] *)
-  bs_err    : Z                   (* 0: fine; 1: an assertion failed; 2: individuals_block, which the
-                                     code sizes by num_edges (sic), indexed out of bounds *)
+  bs_err    : Z                   (* 0: fine; 1: an assertion failed *)
 }.
 
 Section Block.
@@ -44,9 +43,8 @@ Section Block.
     mkBS (bs_edges s) (bs_pos s) (bs_count s) (bs_block s) (bs_mblock s) (bs_blocks s)
          (bs_num s) (bs_mq s) (if bs_err s =? 0 then code else bs_err s).
 
-  (** [individuals_block = np.full(num_edges, tskit.NULL)] (sic): indexing it with an individual
-      id >= num_edges is an IndexError in Python (and unchecked under numba) *)
-  Definition oob (i : nat) : bool := (length es <=? i)%nat.
+  (** [individuals_block = np.full(num_individuals, tskit.NULL)] (since repair f3f9c6a; it used
+      to be sized by num_edges): every individual id indexes it in bounds *)
 
   Definition bs_rmv (left : Z) (e : nat) (s : bs_state) : bs_state :=
     match tracked (echild (edge_at es e)) with
@@ -61,7 +59,6 @@ Section Block.
           if sib =? -1 then
             mkBS edges' (bs_pos s) (bs_count s) (bs_block s) (bs_mblock s) (bs_blocks s)
                  (bs_num s) (bs_mq s) (bs_err s)
-          else if oob i then fail_with 2 s
           else                                         (* flush block *)
             let blk := mkBlock (bs_block s i) ez sib (bs_count s i)
                                (match bs_pos s i with Some p => Some (left - p) | None => None end) in
@@ -75,7 +72,6 @@ Section Block.
     | Some i =>
         let '(u, v) := bs_edges s i in
         if negb ((u =? -1) || (v =? -1)) then fail_with 1 s     (* assert u == NULL or v == NULL *)
-        else if oob i then fail_with 2 s
         else
           let edges' := upd (bs_edges s) i (Z.of_nat e, Z.max u v) in
           let pos' := upd (bs_pos s) i (Some left) in
@@ -96,8 +92,6 @@ Section Block.
           let s' := match tracked (mnode m) with
                     | None => s
                     | Some i =>
-                        if oob i then fail_with 2 s
-                        else
                         mkBS (bs_edges s) (bs_pos s) (upd (bs_count s) i (bs_count s i + 1)) (bs_block s)
                              (upd (bs_mblock s) m (bs_block s i)) (bs_blocks s) (bs_num s) (bs_mq s) (bs_err s)
                     end in
@@ -129,8 +123,7 @@ Fixpoint insert_block (b : block) (l : list block) : list block :=
 Definition sort_blocks (l : list block) : list block := fold_right insert_block [] l.
 
 (** the whole kernel.  [inl code]: the call raises (1 = AssertionError inside the sweep or at the
-    final [assert num_blocks == blocks_edges.shape[0] == blocks_stats.shape[0]], 2 = IndexError,
-    0 = out of fuel, which never happens on valid tables).
+    final [assert num_blocks == blocks_edges.shape[0] == blocks_stats.shape[0]],     0 = out of fuel, which never happens on valid tables).
     [inr]: rows (singletons, span) of blocks_stats, rows of blocks_edges, mutations_block. *)
 Definition block_singletons (es : list edge) (unphased : nat -> bool) (nind : nat -> Z)
            (mpos : nat -> Z) (mnode : nat -> nat) (L : Z) (num_mutations : nat)
